@@ -33,6 +33,12 @@ def rand_spec(rng, shapes=SHAPES, kind=None):
             for c in flat:
                 c[i] = 0
         s["coefficients"] = [c.reshape(shape).tolist() for c in flat]
+    if rng.random() < 0.12:
+        # tiny (but non-zero, exactly representable: 2**-30 < 1e-8) coefficients: non-constant however small
+        def scale(c):
+            return [scale(x) for x in c] if isinstance(c, list) else c * 2.0 ** -30
+        s["coefficients"] = [c if not any(e) else scale(c) for e, c in zip(s["exponents"], s["coefficients"])]
+        s["dtype"] = "float64"
     return s
 
 
